@@ -28,6 +28,7 @@ import tempfile
 import threading
 
 import awtrace
+import fstranslated
 import lib
 import proto
 import real  # noqa: F401  (puts the repo under test on sys.path)
@@ -774,17 +775,46 @@ def check(run: lib.Run, audit: dict) -> int:
     run.obligation("C16_shape: WellShaped ∧ WritesAllOnce Generated.atomicWriteProgram", ok, "" if ok else detail)
     mod = awtrace.load_module(real.REPO)
     run.samples.append({"traced_program": program})
+    # file_store.py as it is written NOW, translated into Lean (world-passing), is proved equal to the model (per-run obligations)
+    tr = audit["facts"].get("translated_filestore")
+    tr = tr if isinstance(tr, dict) and "extraction_failed" not in tr else {"atomic": {"failed": str(tr)}, "source": {"failed": str(tr)}}
+    ok_src, detail_src = lib.run_obligation("C16_translated")
+    run.obligation("C16_translated: Generated.Src.fs_stat_sig / fs_ensure_content_sha / fs_etag / fs_load (the current source text of "
+                   "FilePolicySource, os.stat / _hash_file / open / read / parse_policy_text / validate_policy as outcome parameters) = the "
+                   "model's ensureSha / etag (f-string included) / load for every cache state, stat outcome, hash outcome and tag mode; "
+                   "exceptions propagate with the cache attributes untouched", ok_src,
+                   "discharged" if ok_src else (tr["source"]["failed"] if "failed" in tr["source"] else detail_src))
+    ok_aw, detail_aw = lib.run_obligation("C16_atomic")
+    run.obligation("C16_atomic: Generated.Src.fs_atomic_write (the current source text; mkstemp / fdopen / write / the with exit / replace / "
+                   "unlink read as the model's primitives on the paths the code passes) leaves the model file system and ends exactly as "
+                   "runSteps on canonical .outside [0], for every fault (kill or raise at every call, after any number of bytes); "
+                   "c16_all_or_nothing / c16_failure_leaves_no_temp / c16_success_writes_new re-derived for the source text", ok_aw,
+                   "discharged" if ok_aw else (tr["atomic"]["failed"] if "failed" in tr["atomic"] else detail_aw))
+    ok_py, detail_py = fstranslated.translated_vs_python(run, mod, tr)
+    run.obligation("translated file_store acts like the real atomic_write / FilePolicySource under scripted outcomes of every external call "
+                   "(translator + Model/PyWorld.lean + Model/PyLib.lean vs CPython)", ok_py, detail_py)
+    ok_shape = ok
+    ok = ok and ok_src and ok_aw
 
     check_faults(run, mod, program)
-    check_instants(run, mod)
-    check_concurrent(run, mod)
-    check_midcall(run, mod)
-    check_symlink(run, mod)
-    check_histories(run, mod, scale=run.boost)
+    for part in (check_instants, check_concurrent, check_midcall, check_symlink, lambda r, m: check_histories(r, m, scale=run.boost)):
+        try:
+            part(run, mod)
+        except lib.CheckError:
+            raise
+        except Exception as e:  # noqa: BLE001
+            # a writer that does not work at all (every fault-free write already failed the spec above) also breaks the set-up of the
+            # later parts: that is the violation already found, not trouble with the infrastructure
+            if not run.spec_failures:
+                raise
+            run.notes.append(f"{getattr(part, '__name__', 'check_histories')} could not run on this tree ({type(e).__name__}: {str(e)[:120]}); "
+                             f"a violation had already been found")
     if (run.disagreements or not ok) and not run.spec_failures:
         # a proof obligation or the correspondence broke: widen the search for a failing input on the real code
         check_faults(run, mod, program, wide=True)
         check_histories(run, mod, scale=3)
+        if not (ok_src and ok_aw and ok_py):
+            fstranslated.translated_vs_python(run, mod, tr, wide=True)
 
     violations = []
     if run.spec_failures:
@@ -794,14 +824,27 @@ def check(run: lib.Run, audit: dict) -> int:
         if c.get("kind") == "history":
             c = shrink_history(mod, c)
         path = run.write_replay("spec", {"what": c["what"], "case": c, "more": len(run.spec_failures) - 1,
-                                         "shape_obligation_discharged": ok})
+                                         "shape_obligation_discharged": ok_shape, "C16_translated_discharged": ok_src,
+                                         "C16_atomic_discharged": ok_aw})
         violations.append((path, True))
     elif not ok:
-        path = run.write_replay("obligation", {"what": "proof obligation Rbacx/Run/C16_shape.lean no longer checks: the traced atomic_write "
-                                               "program is not of the shape the theorems Rbacx.C16.c16_all_or_nothing / "
-                                               "c16_failure_leaves_no_temp / c16_success_writes_new quantify over",
-                                               "traced_program": program, "lean": detail[-1500:],
-                                               "first_disagreement": run.disagreements[0] if run.disagreements else None})
+        which = [n for n, o in (("C16_shape", ok_shape), ("C16_translated", ok_src), ("C16_atomic", ok_aw)) if not o]
+        d = next((x for x in run.disagreements if x.get("kind") != "translated"), None)
+        path = run.write_replay("obligation", {"what": f"per-run obligation(s) Rbacx/Run/{' / '.join(which)}.lean no longer check: "
+                                               + ("the traced atomic_write program is not of the shape the theorems Rbacx.C16.c16_all_or_nothing / "
+                                                  "c16_failure_leaves_no_temp / c16_success_writes_new quantify over; " if not ok_shape else "")
+                                               + ("the translated source of FilePolicySource is not proved equal to the model's ensureSha / etag / load; "
+                                                  if not ok_src else "")
+                                               + ("the translated source of atomic_write is not proved to run as runSteps on the canonical program; "
+                                                  if not ok_aw else "")
+                                               + "the theorems Rbacx.C16.* no longer speak about this code; the widened search "
+                                               + ("found an input on which model and real code differ" if d else "found no input on which the real "
+                                                  "code violates C16 or differs from the model (no-failing-input-found)"),
+                                               "traced_program": program,
+                                               "lean": {"C16_shape": None if ok_shape else detail[-1500:], "C16_translated": None if ok_src else detail_src[-1500:],
+                                                        "C16_atomic": None if ok_aw else detail_aw[-1500:]},
+                                               "translation": {k: v.get("failed") for k, v in tr.items()},
+                                               "first_disagreement": d or (run.disagreements[0] if run.disagreements else None)})
         violations.append((path, False))
     elif run.disagreements:
         path = run.write_replay("correspondence", {"what": "model (Rbacx.FileSrc.runSteps / trace) and implementation disagree; theorems "
@@ -819,6 +862,8 @@ def replay(run: lib.Run, audit: dict, path: str) -> int:
         print("traced program now:", audit["facts"]["atomic_write_program"])
         print("recorded:", rp.get("traced_program"))
         return 0
+    if c.get("kind") == "translated":
+        return fstranslated.replay_case(mod, c)
     if c.get("kind") == "history":
         disk = Disk(mod)
         try:
